@@ -85,7 +85,16 @@ Pairs == IF Depth < 2 THEN {}
                   kk \in {"and", "or"}, op \in Ops, it \in ItemsA, v \in RepSet }
               \cup { Case(Not(Cmp(op, Path("a"), Val(":v"))), it, <<>>, V1(v)) : op \in Ops, it \in ItemsA, v \in RepSet }
 
-Cases == Atoms \cup PathCases \cup BoolCases \cup Pairs
+\* attribute names, name placeholders and value placeholders are case-sensitive: a / A, #n / #N, :v / :V are different things,
+\* whatever was evaluated before in the same process
+Cased == [ a |-> SAB, A |-> Num(1), Bb |-> SAB ]
+CaseCases ==
+  { Case(Cmp(op, Path(n), Val(":v")), Cased, <<>>, V1(v)) : op \in {"=", "<>"}, n \in {"a", "A", "bb", "Bb", "BB"}, v \in { SAB, Num(1) } }
+  \cup { Case(Fn(f, <<Path(n)>>), Cased, <<>>, <<>>) : f \in {"attribute_exists", "attribute_not_exists"}, n \in {"a", "A", "bb", "Bb", "BB"} }
+  \cup { Case(Cmp("=", PathOf(<<A_(ph)>>), Val(":v")), Cased, [x \in {ph} |-> IF x = "#n" THEN "a" ELSE "A"], V1(SAB)) : ph \in {"#n", "#N"} }
+  \cup { Case(Cmp("=", Path("a"), Val(ph)), Cased, <<>>, [x \in {ph} |-> IF x = ":v" THEN SAB ELSE Num(1)]) : ph \in {":v", ":V"} }
+
+Cases == Atoms \cup PathCases \cup BoolCases \cup Pairs \cup CaseCases
 ASSUME \A c \in Cases : PrintT(ToJson(c))
 ASSUME PrintT(ToJson([kind |-> "count", n |-> Cardinality(Cases)]))
 VARIABLE dummy
